@@ -170,7 +170,7 @@ func runVecHistory(r *rand.Rand, p vecParams, o vecHistOpts, t *Trace) *Case {
 	}
 	emptyBM := emptyBitmapBytes()
 	for step := 0; step < o.nops; step++ {
-		if step == o.nops-1 || r.Intn(7) == 0 {
+		if step == o.nops-1 || r.Intn(3) == 0 {
 			emitDump()
 		}
 		if o.serialize && (step == o.nops/2 || r.Intn(12) == 0) {
